@@ -35,7 +35,7 @@ PERTS = ("none", "permute", "regroup", "drop_sig", "dup_sig", "subst_sig", "drop
          "key_identity", "key_non_subgroup", "key_cancel_pair", "key_malformed", "empty")
 _REQ = ([f"pert:{p}" for p in PERTS] +
         ["entry:AggregateVerify:basic", "entry:AggregateVerify:aug", "entry:AggregateVerify:pop",
-         "entry:FastAggregateVerify", "entry:Aggregate", "want:True", "want:False", "repeated_key", "repeated_msg",
+         "entry:FastAggregateVerify", "entry:Aggregate", "want:True", "want:False", "repeated_key", "repeated_msg", "aggregate_verify:all_messages_equal",
          "zero_sum", "aggregate:wrong_size", "aggregate:empty", "aggregate:regroup", "n>=4"])
 REQUIRED_LABELS = {"quick": _REQ + ["aggregate:n>=7"], "thorough": _REQ + ["n>=16", "aggregate:n>=7"]}
 
@@ -135,6 +135,8 @@ def o_verify(ctx, case):
     ctx.label(f"pert:{pert}")
     ctx.label(f"entry:AggregateVerify:{suite}" if entry == "AggregateVerify" else "entry:FastAggregateVerify")
     ctx.label(f"want:{want}")
+    if entry == "AggregateVerify" and len(msgs) >= 2 and len(set(msgs)) == 1:
+        ctx.label("aggregate_verify:all_messages_equal")
     rep_k = len(set(pks)) != len(pks)
     rep_m = len(set(msgs)) != len(msgs)
     if rep_k:
@@ -224,6 +226,8 @@ def build(t):
                 msgs.append(msgs[(mi - 500) % len(msgs)])
             else:
                 msgs.append(MSG_POOL[(mi + 7 * j) % len(MSG_POOL)])
+        if suite == "pop" and a % 5 == 0:
+            msgs = [msgs[0]] * n            # one shared message through AggregateVerify (legal outside the basic suite)
         if suite == "basic" and pert != "none" and len(set(msgs)) != n:
             # keep most basic-suite cases out of the trivial "repeated message" refusal
             if a % 4:
